@@ -33,6 +33,7 @@ pub struct C03 {
     /// C14: overrides for what the peer declared (rewritten transport parameters)
     override_for_client: Option<u64>,
     override_for_server: Option<u64>,
+    prop: &'static str,
 }
 
 impl C03 {
@@ -43,6 +44,9 @@ impl C03 {
             client_data_windows: p.clients.iter().map(|c| c.cfg.data_window).collect(),
             override_for_client: p.knobs.get("tp_max_data_seen_by_client").map(|v| *v as u64),
             override_for_server: p.knobs.get("tp_max_data_seen_by_server").map(|v| *v as u64),
+            // when run as part of C14 ("operates under exactly the declared limits") violations
+            // are reported under that property
+            prop: if p.monitors.first().map(|m| m == "C14").unwrap_or(false) { "C14" } else { "C03" },
         }
     }
 
@@ -65,6 +69,7 @@ impl C03 {
 
     fn check_send(&mut self, cx: &mut Ctx, p: &Pkt, id: u64, end: u64, what: &str) {
         let ep = p.ep;
+        let prop = self.prop;
         let c = self.conns.entry((ep, p.conn)).or_default();
         let i_am_server = ep == SERVER;
         let initiated_by_server = id & 1 == 1;
@@ -79,7 +84,7 @@ impl C03 {
         cx.summary.count("c03.frames_checked", 1);
         if end > lim {
             cx.violate(
-                "C03",
+                prop,
                 "stream-limit-exceeded",
                 format!("ep{ep} c{} {what} on stream {id} ends at {end} but the largest limit received is {lim}", p.conn),
                 json!({"ep": ep, "conn": p.conn, "stream": id, "end": end, "limit": lim, "pkt": p.brief()}),
@@ -97,7 +102,7 @@ impl C03 {
         let conn_lim = c.init_max_data.max(c.max_data);
         if c.sent_sum > conn_lim {
             cx.violate(
-                "C03",
+                prop,
                 "connection-limit-exceeded",
                 format!("ep{ep} c{} sum of stream offsets {} exceeds the largest MAX_DATA received {conn_lim}", p.conn, c.sent_sum),
                 json!({"ep": ep, "conn": p.conn, "sum": c.sent_sum, "limit": conn_lim, "pkt": p.brief()}),
@@ -117,7 +122,7 @@ impl C03 {
             let idx = id >> 2;
             if idx >= lim {
                 cx.violate(
-                    "C03",
+                    prop,
                     "stream-count-exceeded",
                     format!("ep{ep} c{} references locally opened stream {id} (index {idx}) but the largest MAX_STREAMS received is {lim}", p.conn),
                     json!({"ep": ep, "conn": p.conn, "stream": id, "limit": lim, "pkt": p.brief()}),
